@@ -299,7 +299,7 @@ PROPS = {
     ),
     "C17": dict(
         module="Evl.Props.C17",
-        theorems=["Evl.C17.process_expiry", "Evl.C17.bound", "Evl.C17.flushAll_empties", "Evl.C17.flushAll_progress", "Evl.C17.flushes_empty", "Evl.C17.close_is_flushAll", "Evl.C17.sections_on_source"],
+        theorems=["Evl.C17.process_expiry", "Evl.C17.bound", "Evl.C17.flushAll_empties", "Evl.C17.flushAll_progress", "Evl.C17.flushes_empty", "Evl.C17.flushAll_empty_noop", "Evl.C17.close_is_flushAll", "Evl.C17.sections_on_source"],
         runs=[GATED_RUN, race_run("gated", 15, 300, 100)], oracle_prefixes=["C17"], models=["M6 Gated", "Generated.LockSites(gatedSections)"],
         trusted_base=TB_COMMON, assumptions=GATED_ASSUME, rule=GATED_RULE,
     ),
